@@ -21,8 +21,39 @@ ASSUMPTIONS = ["clang ASan/UBSan/libFuzzer and the library's own VERIFY_CHECKs a
 FUZZ_TARGETS = [
     # VERIFY + ASan + UBSan: ~3 ms CPU per execution (one scalar multiplication costs ~1 ms in this build)
     FuzzTarget("fuzz_untrusted", "fuzz_untrusted.c", cfgs={"quick": ["vsan"], "thorough": ["vsan"]},
-               runs={"quick": 15000, "thorough": 400000}, workers={"quick": 12, "thorough": 12}, max_len=9000, corpus="fuzz_untrusted", timeout=60),
+               runs={"quick": 15000, "thorough": 300000}, workers={"quick": 12, "thorough": 12}, max_len=9000, corpus="fuzz_untrusted", timeout=60),
     # shipped flags + ASan + UBSan (no VERIFY: other code paths, e.g. no magnitude tracking), ~5x faster
     FuzzTarget("fuzz_untrusted_prod", "fuzz_untrusted.c", cfgs={"quick": ["prod"], "thorough": ["prod"]},
-               runs={"quick": 40000, "thorough": 1500000}, workers={"quick": 4, "thorough": 4}, max_len=9000, corpus="fuzz_untrusted", timeout=60),
+               runs={"quick": 40000, "thorough": 600000}, workers={"quick": 4, "thorough": 4}, max_len=9000, corpus="fuzz_untrusted", timeout=60),
 ]
+
+# every entry point must have been exercised past its first length / prefix check, and the special paths the property is about
+# must have been reached; otherwise the run is INCONCLUSIVE (exit 2), never silently green.
+ENTRY_POINTS = ["pubkey_parse", "xonly_parse", "sig_parse_der", "sig_parse_compact", "recsig_parse_compact", "ecdsa_verify", "schnorrsig_verify",
+                "musig_pubnonce_parse", "musig_aggnonce_parse", "musig_partial_sig_parse", "rangeproof_verify", "rangeproof_rewind", "rangeproof_info",
+                "surjectionproof_parse", "whitelist_parse", "adaptor_verify", "adaptor_decrypt", "adaptor_recover", "halfagg_verify",
+                "halfagg_inc_aggregate", "ellswift_decode", "ellswift_xdh", "commitment_parse", "generator_parse", "bppp_generators_parse",
+                "bppp_norm_verify", "s2c_opening_parse", "lax_der"]
+MUST_COVER = [e + s for e in ENTRY_POINTS for s in ("", ":nt", ":ok")] + [
+    "f2:s0_reaches_recover", "halfagg:overflow_counts", "bppp:reject_mid_list", "rewind:ok", "rewind:small_msgbuf", "surj:verify_ok",
+    "whitelist:verify_ok", "norm:verify_ok", "sig:failed_parse_consumed", "mut:count_reencoded_consistent_length", "mut:boundary", "mut:plus_n",
+    "mut:plus_p", "mut:lenfield", "mut:truncate", "mut:extend", "len:declared", "mode:raw"]
+
+
+def custom_main(tier, seed):
+    import json
+    import os
+    import sys
+    import time
+    from vf import fuzz
+    from vf.main import log, VERIF
+    rc = fuzz.run_fuzz("C07", tier, seed, FUZZ_TARGETS, sys.modules[__name__], t0=time.time())
+    if rc != 0:
+        return rc
+    with open(os.path.join(VERIF, "evidence", "C07.json")) as f:
+        classes = json.load(f)["coverage"]["classes"]
+    missing = [t.name + ":" + c for t in FUZZ_TARGETS for c in MUST_COVER if classes.get(t.name + ":" + c, 0) == 0]
+    if missing:
+        log("INCONCLUSIVE generator: classes never produced: " + ", ".join(missing[:40]))
+        return 2
+    return 0
